@@ -29,7 +29,7 @@ Stable violation keys:
   undeclared-variable-reference   validator-audit-mismatch (no_input)
   compiler-hash-iteration-site:<site> (no_input; only when no nondeterministic-output was found)
 """
-import collections, hashlib, json, os, re, time
+import collections, hashlib, json, os, random, re, time
 import vlib, compilerun, mutate_ink, detcomp, gen_decls
 from props import common
 
@@ -398,22 +398,28 @@ def run(ctx):
     gi = gen_ink_programs(ctx.rng, 150 if ctx.quick() else 4000)
     for src in gi:
         cases.append({"id": len(cases), "src": src, "stream": "gen_ink", "want_json": True})
-    # declaration-table programs (every table the compiler keeps, CONST DAGs in every order) ...
-    decl_files = {}
+    # declaration-table programs (every table the compiler keeps, CONST DAGs in every order) ...  They draw from a
+    # generator of their own (seeded from the run's seed) so that the mutant stream below is the one it always was.
+    drng = random.Random("C06/decls/%s" % ctx.seed)
+    decl_files, decl_pool = {}, []
     for k in range(60 if ctx.quick() else 1500):
-        p = gen_decls.gen_program(ctx.rng) if k % 3 else gen_decls.gen_program(ctx.rng, n_includes=(0, 0))
+        p = gen_decls.gen_program(drng) if k % 3 else gen_decls.gen_program(drng, n_includes=(0, 0))
         c = {"id": len(cases), "src": p["src"], "stream": "gen_decls", "want_json": True, "script": p["script"]}
         if p["files"]:
             c["base"] = detcomp.write_includes(p["files"], "c06_" + hashlib.sha1(p["src"].encode()).hexdigest()[:12])
             decl_files[p["src"]] = p["files"]
         else:
-            sources.append(p["src"])          # ... which are also mutated
+            decl_pool.append(p["src"])
         cases.append(c)
-    # ... and any other program with a CONST DAG, VARs initialised from it and a line printing it in front
-    for src in ctx.rng.sample(gi, min(len(gi), 40 if ctx.quick() else 1000)) + \
-            [s for _, s, _ in ctx.rng.sample(corp, 10 if ctx.quick() else len(corp)) if not common.has_include(s)]:
-        cases.append({"id": len(cases), "src": gen_decls.with_const_dag(ctx.rng, src)[0], "stream": "consts+",
+    # ... any other program with a CONST DAG, VARs initialised from it and a line printing it in front ...
+    for src in drng.sample(gi, min(len(gi), 40 if ctx.quick() else 1000)) + \
+            [s for _, s, _ in drng.sample(corp, 10 if ctx.quick() else len(corp)) if not common.has_include(s)]:
+        cases.append({"id": len(cases), "src": gen_decls.with_const_dag(drng, src)[0], "stream": "consts+",
                       "want_json": True})
+    # ... and mutants of the declaration-table programs (clause (c) only: compiled, not validated as stories)
+    for k in range(100 if ctx.quick() else 3000):
+        st, src = mutate_ink.one(drng, decl_pool, stream=drng.choice(["char", "token", "line"]))
+        cases.append({"id": len(cases), "src": src, "stream": "decl-" + st, "want_json": False})
     n_fixed = len(cases)
     want_budget = 900 if ctx.quick() else 6000
     # The raw mutation stream is a FIXED regression stream (its own PRNG, not VERIF_SEED): byte / token /
